@@ -19,12 +19,16 @@ pub mod c15;
 pub mod c15_world;
 pub mod c16;
 pub mod c16_fn;
+pub mod c17;
+pub mod c17_world;
 pub mod c18;
 pub mod c18_fn;
 pub mod c18_world;
 pub mod c19;
 pub mod c19_fn;
 pub mod c19_seq;
+pub mod c20_world;
+pub mod c20;
 pub mod c12;
 pub mod c12_fn;
 pub mod c13;
@@ -43,8 +47,10 @@ pub fn run(id: &str, ctx: &Ctx) -> i32 {
         "C14" => finish(ctx, c14::run(ctx), Some(&c14::replay)),
         "C15" => finish(ctx, c15::run(ctx), Some(&c15::replay)),
         "C16" => finish(ctx, c16::run(ctx), Some(&c16::replay)),
+        "C17" => finish(ctx, c17::run(ctx), Some(&c17::replay)),
         "C18" => finish(ctx, c18::run(ctx), Some(&c18::replay)),
         "C19" => finish(ctx, c19::run(ctx), Some(&c19::replay)),
+        "C20" => finish(ctx, c20::run(ctx), Some(&c20::replay)),
         "C12" => finish(ctx, c12::run(ctx), Some(&c12::replay)),
         "C13" => finish(ctx, c13::run(ctx), Some(&c13::replay)),
         "C07" => finish(ctx, c07::run(ctx), Some(&c07::replay)),
@@ -69,8 +75,10 @@ pub fn replay(id: &str, case: &Value) -> Result<(), String> {
         "C14" => c14::replay(case),
         "C15" => c15::replay(case),
         "C16" => c16::replay(case),
+        "C17" => c17::replay(case),
         "C18" => c18::replay(case),
         "C19" => c19::replay(case),
+        "C20" => c20::replay(case),
         "C12" => c12::replay(case),
         "C13" => c13::replay(case),
         "C07" => c07::replay(case),
